@@ -120,6 +120,12 @@ func (f *fieldSelectionMergingVisitor) EnterField(ref int) {
 	// scalars and enums are the leaf types: fields of these types are compared as a whole below
 	if fieldDefinitionTypeNode.Kind != ast.NodeKindScalarTypeDefinition && fieldDefinitionTypeNode.Kind != ast.NodeKindEnumTypeDefinition {
 
+		if len(f.ScalarRequirementsByPathField(path, objectName)) != 0 {
+			// the response name is already taken by a field of a leaf type: the shapes can never agree
+			f.StopWithExternalErr(operationreport.ErrResponseOfDifferingTypesMustBeOfSameShape(objectName, objectName))
+			return
+		}
+
 		matchedRequirements := f.NonScalarRequirementsByPathField(path, objectName)
 		hasDifferentKindInRequirements := false
 		for _, i := range matchedRequirements {
@@ -193,6 +199,12 @@ func (f *fieldSelectionMergingVisitor) EnterField(ref int) {
 			fieldTypeDefinitionNode: fieldDefinitionTypeNode,
 			enclosingTypeDefinition: f.EnclosingTypeDefinition,
 		})
+		return
+	}
+
+	if len(f.NonScalarRequirementsByPathField(path, objectName)) != 0 {
+		// the response name is already taken by a field with a selection set
+		f.StopWithExternalErr(operationreport.ErrResponseOfDifferingTypesMustBeOfSameShape(objectName, objectName))
 		return
 	}
 
